@@ -106,6 +106,15 @@ def interpret_corpus(tier):
         _, ref, env = c04.run_reference(setup)
         for s in c04.menu(env, ref, tier, core_only=False):
             out.append(setup + [s])
+    # programs whose right operand of and/or fails or has an effect when evaluated (outside the reference's domain:
+    # only the renderings are compared with each other)
+    V, I, B, U, F_ = c04.V, c04.I, c04.B, c04.U, c04.F
+    setup = c04.SETUPS[1]
+    for op, left in (('and', c04.FALSE), ('or', c04.TRUE), ('and', c04.TRUE), ('or', c04.FALSE)):
+        out.append(setup + [('selfrom', 'any', 'nobody', 'A', B('==', ('field', ('selected',), 'K'), I(99)), True),
+                            c04.ASG(V('f'), B(op, left, B('==', F_('nobody', 'N'), I(1))))])
+        out.append(setup + [c04.ASG(V('f'), B(op, left, B('==', B('/', I(1), I(0)), I(1))))])
+        out.append(setup + [c04.ASG(V('f'), B(op, V('i'), c04.TRUE))])
     return out
 
 
@@ -114,7 +123,9 @@ def interpret_task(ctx, task):
     for prog in progs:
         try:
             _, _, env = c04.run_reference(prog)
-        except c04.E.OutOfDomain:
+        except c04.E.OutOfDomain as e:
+            if 'fuel' not in str(e):
+                differential_only(ctx, prog, tier)
             continue
         probes = c04.probe_statements(env) if env is not None else []
         p = A.print_program(list(prog) + probes)
@@ -131,6 +142,52 @@ def interpret_task(ctx, task):
                                           extra_case=dict(kind='interpret', rendering=r))
             if status == 'ok':
                 ctx.distinct('nontrivial', ('interpret', repr(prog), repr(sorted(r.items()))))
+
+
+def real_outcome(text):
+    '''What the real interpreter does with a program the reference does not define: value + population, or the exception class.'''
+    import xtuml
+    from bridgepoint import ooaofooa, interpret
+    from mc.refs import relmodel
+    dom = relmodel.build_real(xtuml, c04.SCHEMA, xtuml.IntegerGenerator(), factory=ooaofooa.Domain)
+    try:
+        with core.time_limit(10.0):
+            value = interpret.run_function(dom, 'c08', text, {})
+    except core.Timeout:
+        return ['timeout']
+    except Exception as e:
+        return ['raised', type(e).__name__]
+    pop = []
+    for k in c04.SCHEMA.kinds():
+        refs = c04.SCHEMA.referentials(k)
+        for inst in dom.select_many(k):
+            pop.append([k] + [repr(getattr(inst, n)) for n, t in c04.SCHEMA.attrs(k) if n not in refs and t != 'unique_id'])
+    if isinstance(value, xtuml.Class):
+        value = 'instance'
+    elif not isinstance(value, (bool, int, float, str, type(None))):
+        value = 'set(%d)' % len(list(value))
+    return ['returned', repr(value), pop]
+
+
+def differential_only(ctx, prog, tier):
+    '''Programs outside the reference's domain (ill-typed, erroneous): the renderings must still behave alike.'''
+    p = A.print_program(list(prog))
+    kinds = sorted(set(t.kw for t in p.toks if t.kw))
+    base = real_outcome(A.assemble(p, A.Layout())[0])
+    if base == ['timeout']:
+        return
+    last = A.print_program([prog[-1]])
+    rs = [dict((k, 'upper') for k in kinds)] + [{k: 'upper'} for k in sorted(set(t.kw for t in last.toks if t.kw))]
+    for r in rs:
+        ctx.count('interpret_runs')
+        ctx.count('differential_only_runs')
+        text = A.assemble(p, layout_for(r))[0]
+        got = real_outcome(text)
+        if got != base:
+            ctx.violation('c08:interpret:differs-from-lower-case', dict(kind='interpret-diff', prog=prog, rendering=r),
+                          '%r behaves differently from its lower-case rendering: %s vs %s' % (text, got[:2], base[:2]), base, got)
+        else:
+            ctx.count('traces')
 
 
 def prebuild_available():
@@ -192,7 +249,18 @@ def prebuild_corpus(tier='quick'):
     '''Programs that are well-formed and name-resolved in the prebuild host (function home).'''
     from mc.refs import prebuildhost as H
     progs = list(H.prebuild_corpus(tier=tier))
-    return progs[::3] if tier == 'quick' else progs
+    progs = progs[::3] if tier == 'quick' else progs
+    # operands of and/or/not that are not boolean: outside the typed domain of C05, but the renderings must still agree
+    V, I, B = c04.V, c04.I, c04.B
+    T, Fa = ('bool', 'true'), ('bool', 'false')
+    for op in ('and', 'or'):
+        progs.append(('loose_int_%s' % op, [c04.ASG(V('i'), I(1)), c04.ASG(V('t'), B(op, V('i'), T))]))
+        progs.append(('loose_card_%s' % op, [('selfrom', 'many', 'aset', 'A', None, True),
+                                             c04.ASG(V('t'), B(op, ('un', 'cardinality', V('aset')), Fa))]))
+        progs.append(('loose_handle_%s' % op, [('selfrom', 'any', 'a', 'A', None, True), c04.ASG(V('t'), B(op, V('a'), T))]))
+        progs.append(('loose_right_%s' % op, [c04.ASG(V('i'), I(1)), c04.ASG(V('t'), B(op, T, V('i')))]))
+        progs.append(('loose_nested_%s' % op, [c04.ASG(V('i'), I(1)), c04.ASG(V('t'), B('or', B(op, V('i'), V('i')), ('un', 'not', V('i'))))]))
+    return progs
 
 
 def run(ctx):
@@ -238,6 +306,12 @@ def replay(ctx, case):
     elif case['kind'] == 'interpret':
         c04.check_program(ctx, case['prog'], 'case', layout=layout_for(case['rendering']), sigprefix='c08:interpret',
                           extra_case=dict(kind='interpret', rendering=case['rendering']))
+    elif case['kind'] == 'interpret-diff':
+        p = A.print_program(list(case['prog']))
+        base = real_outcome(A.assemble(p, A.Layout())[0])
+        got = real_outcome(A.assemble(p, layout_for(case['rendering']))[0])
+        if got != base:
+            ctx.violation('c08:interpret:differs-from-lower-case', case, 'behaves differently from its lower-case rendering', base, got)
     elif case['kind'] == 'prebuild':
         prebuild_task(ctx, ('thorough', [(case['name'], case['stmts'])]))
 
